@@ -254,7 +254,7 @@ class Affine(Homogeneous):
             h_matrix = np.eye(4)
             h_matrix[:3, :] += p.reshape((3, 4), order="F")
         else:
-            ValueError(
+            raise ValueError(
                 "Only 2D (6 parameters) or 3D (12 parameters) "
                 "homogeneous matrices are supported."
             )
